@@ -106,7 +106,7 @@ impl IterConfig for PartitionIterConfig {
         from_position: u64,
         dir: IterDirection,
         segment_index: usize,
-        segments_len: usize,
+        _segments_len: usize,
     ) -> Result<Option<(Vec<u64>, usize)>, Self::Error> {
         let partition_index = match reader_set.partition_index.as_mut() {
             Some(index) => index,
@@ -114,9 +114,11 @@ impl IterConfig for PartitionIterConfig {
         };
 
         let key = match partition_index.get_key(self.partition_id)? {
-            Some(key) if key.sequence_min <= from_position || segment_index == 0 => key,
+            // A reverse scan only starts in a segment that holds something at or before the
+            // start position
             Some(key)
-                if matches!(dir, IterDirection::Reverse) && segment_index == segments_len - 1 =>
+                if key.sequence_min <= from_position
+                    || (segment_index == 0 && matches!(dir, IterDirection::Forward)) =>
             {
                 key
             }
@@ -198,7 +200,7 @@ impl IterConfig for StreamIterConfig {
         from_position: u64,
         dir: IterDirection,
         segment_index: usize,
-        segments_len: usize,
+        _segments_len: usize,
     ) -> Result<Option<(Vec<u64>, usize)>, Self::Error> {
         let stream_index = match reader_set.stream_index.as_mut() {
             Some(index) => index,
@@ -206,9 +208,11 @@ impl IterConfig for StreamIterConfig {
         };
 
         let key = match stream_index.get_key(&self.stream_id)? {
-            Some(key) if key.version_min <= from_position || segment_index == 0 => key,
+            // A reverse scan only starts in a segment that holds something at or before the
+            // start position
             Some(key)
-                if matches!(dir, IterDirection::Reverse) && segment_index == segments_len - 1 =>
+                if key.version_min <= from_position
+                    || (segment_index == 0 && matches!(dir, IterDirection::Forward)) =>
             {
                 key
             }
